@@ -487,6 +487,20 @@ def corrupt_plane_trace(tr):
     return None
 
 
+MAX_EVENTS_PER_RUN = 25000      # a batch of traces is one long behaviour, and TLC handles behaviours of < 65536 states
+
+
+def take_chunk(todo, max_events=MAX_EVENTS_PER_RUN):
+    out, n = [], 0
+    for t in todo:
+        e = len(t["ev"]) + 2
+        if out and n + e > max_events:
+            break
+        out.append(t)
+        n += e
+    return out
+
+
 def accepted_with_fewer_deviations(ck, tr, dev):
     """a trace rejected under the listed deviations: is it a behaviour of the specification with a proper subset
     of them switched on?  -> that subset (list) or None"""
@@ -524,29 +538,31 @@ def validate_plane_traces(ck, traces, dev):
     drifted = 0
     tf = os.path.join(ck.tmp, "c20_ptraces.json")
     while todo:
+        batch = take_chunk(todo)
         with open(tf, "w") as f:
-            json.dump(todo, f)
+            json.dump(batch, f)
         emit = os.path.join(ck.tmp, "c20_ptrace.ndjson")
         res = run_tlc(PLANE_TRACE, cfg, workers=1, env={"TRACE_FILE": tf}, timeout=3600, heap="6g", emit=emit)
-        ck.add_tlc(res, "PlaneTrace: validation of %d recorded Plane traces" % len(todo))
+        ck.add_tlc(res, "PlaneTrace: validation of %d recorded Plane traces" % len(batch))
         done = {}
         for x in open(emit):          # (TLC re-evaluates actions when it reconstructs an error trace: lines can repeat)
             d = json.loads(x)
             done[d["t"]] = d
         for d in done.values():
-            tr = todo[d["t"] - 1]
+            tr = batch[d["t"] - 1]
             if tr is canary:
                 continue
             accepted += 1
             miss += d["miss"]
             missi += d["missi"]
         if res.ok:
-            break
+            todo = todo[len(batch):]
+            continue
         if res.violated != "deadlock" or not res.error_trace:
             raise MachineryError("Plane trace validation failed unexpectedly: " + res.error_text[:2000])
         st = res.error_trace[-1][1]
         t, k = int(st["t"]), int(st["k"])
-        tr = todo[t - 1]
+        tr = batch[t - 1]
         if tr is canary:
             canary_rejected = True
         else:
@@ -638,19 +654,21 @@ def helper_traces(ck, rng, hrec):
     accepted = rejected = 0
     canary_rejected = False
     while todo:
+        batch = take_chunk(todo)
         with open(tf, "w") as f:
-            json.dump(todo, f)
+            json.dump(batch, f)
         res = run_tlc(AFF_TRACE, cfg, workers=1, env={"TRACE_FILE": tf}, timeout=1800)
-        ck.add_tlc(res, "AffineTrace: validation of %d recorded helper-call traces" % len(todo))
+        ck.add_tlc(res, "AffineTrace: validation of %d recorded helper-call traces" % len(batch))
         if res.ok:
-            accepted += sum(1 for t in todo if t is not canary)
-            break
+            accepted += sum(1 for t in batch if t is not canary)
+            todo = todo[len(batch):]
+            continue
         if res.violated != "deadlock" or not res.error_trace:
             raise MachineryError("helper trace validation failed unexpectedly: " + res.error_text[:2000])
         st = res.error_trace[-1][1]
         t, k = int(st["t"]), int(st["k"])
-        accepted += sum(1 for x in todo[:t - 1] if x is not canary)
-        tr = todo[t - 1]
+        accepted += sum(1 for x in batch[:t - 1] if x is not canary)
+        tr = batch[t - 1]
         if tr is canary:
             canary_rejected = True
         else:
